@@ -80,8 +80,19 @@ impl CharScorerBoundaryTag {
             let weight = PositionalWeightWithTag::with_boundary(-word_len, d.weights);
             merger.add(d.word, weight);
         }
+        // Tag n-grams may end farther from the token than the boundary window reaches.
+        let max_rel_position = tag_ngram_model
+            .iter()
+            .flat_map(|m| m.0.iter())
+            .flat_map(|d| d.weights.iter())
+            .map(|w| usize::from(w.rel_position))
+            .max()
+            .unwrap_or(0);
         let mut tag_weight = vec![
-            vec![SerializableHashMap::default(); usize::from(window_size) + 1];
+            vec![
+                SerializableHashMap::default();
+                usize::from(window_size).max(max_rel_position) + 1
+            ];
             tag_ngram_model.len()
         ];
         for (i, tag_model) in tag_ngram_model.into_iter().enumerate() {
